@@ -1,7 +1,7 @@
 (* Props/C05.v — property C05 (XMI half): loading depends on what a document says, not on how it is laid out.
    Only the property theorems (closed by `exact`), Print Assumptions and non-vacuity examples.
    parse_flt (float(str)) is universally quantified in every statement. *)
-From Cassis Require Import Base Heap Schema Canon Lex XmiDoc XmiLoad XmiLoadProofs XmiLoadProofs2.
+From Cassis Require Import Base Heap Schema Canon Lex XmiDoc XmiLoad XmiLoadProofs XmiLoadProofs2 XmiLoadProofs3.
 Open Scope Z_scope.
 
 (* The declarative meaning of a closed document (ids distinct, references resolvable) whose elements carry no attribute
@@ -74,6 +74,26 @@ Theorem C05_reader_okb_is_general_plus_initial : forall parse_flt s d,
 Proof. exact reader_okb_split. Qed.
 Print Assumptions C05_reader_okb_is_general_plus_initial.
 
+(* Totality of the reader.  A document that satisfies reader_okb0 and total_okb - every attribute of a Sofa element is one
+   _parse_sofa knows, every attribute of a feature structure element is its xmi:id or a declared feature (the constructors
+   refuse unknown keywords), every element of a subtype of AnnotationBase names its sofa (sofas[value] is indexed
+   unconditionally), cas:NULL is there (a reference written as 0 is looked up like any other) - is loaded: no step of the
+   two loops, of the offset conversion, of view creation and member insertion raises, and (with the theorem above) the
+   loaded CAS has the denoted content.  total_okb is a boolean on the document, evaluated per case. *)
+Theorem C05_load_xmi_total : forall parse_flt s d,
+  reader_okb0 parse_flt s d = true -> total_okb s d = true ->
+  exists c, load_xmi parse_flt s false d = Ok c /\ canon_loaded s c = res_map with_initial (denote_xmi parse_flt s d).
+Proof. exact load_xmi_total_denotation. Qed.
+Print Assumptions C05_load_xmi_total.
+(* reader_okb alone does not give totality: a Sofa element with an unknown attribute (TypeError), an annotation element
+   without a sofa attribute (KeyError) *)
+Theorem C05_load_total_refuted : exists pf s d, reader_okb pf s d = true /\ load_xmi pf s false d = Err EType.
+Proof. exact load_total_refuted. Qed.
+Print Assumptions C05_load_total_refuted.
+Theorem C05_load_total_refuted_sofa_attr : exists pf s d, reader_okb pf s d = true /\ load_xmi pf s false d = Err EKey.
+Proof. exact load_total_refuted_sofa_attr. Qed.
+Print Assumptions C05_load_total_refuted_sofa_attr.
+
 (* Corollary: the content the reader produces does not depend on the presentation. *)
 Theorem C05_load_order_independent : forall parse_flt s d d' c c',
   reader_okb parse_flt s d = true -> reader_okb parse_flt s d' = true -> attrs_nodupb d = true -> presentation_equiv d d' ->
@@ -144,6 +164,9 @@ Example C05_general_premises_hold :
   end.
 Proof. vm_compute. repeat split; reflexivity. Qed.
 
+
+Example C05_total_premises_hold : total_okb ex_schema ex_doc = true /\ total_okb ex_schema ex_doc0 = true.
+Proof. vm_compute. split; reflexivity. Qed.
 
 (* ================================================================================================
    JSON half of C05: the statements below are proved in JsonProofs.v / JsonProofs2.v / JsonLoadProofs.v / JsonLex.v and
